@@ -160,6 +160,12 @@ impl SignBus for SharedVBus {
 }
 
 pub fn eval_case(line: &str) -> String {
+    // Building the case's inputs through the public API can itself panic or be refused when the
+    // implementation is wrong (e.g. a 255-byte Data); that is a result, not a harness failure.
+    guarded(|| eval_case_inner(line)).unwrap_or_else(|| "PANIC".to_string())
+}
+
+fn eval_case_inner(line: &str) -> String {
     let t: Vec<&str> = line.split(' ').filter(|s| !s.is_empty()).collect();
     match t[0] {
         "ENC" | "ENCB" => {
